@@ -17,7 +17,7 @@ CHECKS = {
             "verify_digests() is compared with a verdict recomputed from the input bytes by an independent decoder for every subset of digest tags x right/wrong values, unsupported/unknown payload digest algorithms and every single-bit flip of small packages.",
             "sha2/sha1/md-5 crates; independent decoder"),
     "C04": ("exploration", "process-level monitors: panic hook, counting allocator with budget, exit status, watchdog; verifdbg overflow checks; valgrind/ASan/Miri replays in the thorough tier",
-            "Hostile inputs (boundary products, every truncation, byte mutations, structure-aware mutation storms, hostile cpio) are parsed and then driven through every read-side operation inside worker processes that turn panics, aborts, oversized allocations and hangs into events. Both release and overflow-checking builds are run.",
+            "Hostile inputs (boundary products, every truncation, byte mutations, structure-aware mutation storms, hostile cpio) are parsed and then driven through every read-side operation inside worker processes that turn panics, aborts, oversized allocations and hangs into events. Both release and overflow-checking builds are run. The repository's packages are also read by builds of the library with other cargo feature sets (featprobe/): no panic.",
             "allocation budget 4 MiB + 256 x input; watchdog firing is inconclusive unless confirmed on an idle re-run"),
     "C05": ("exploration", "runtime monitor: independent header decoder vs every accessor",
             "Well-formed generated headers (each accessor's tags in right/wrong types, counts 0..n, i18n, 32/64-bit sizes, missing triple members, bad dirindexes, non-UTF-8) and the asset packages are decoded independently and compared with every accessor result, including the required error kinds.",
@@ -26,7 +26,7 @@ CHECKS = {
             "Random builder configurations are built, written, re-parsed, and every supplied value is compared with the matching accessor.",
             "source files and mtimes are created by the harness on the local file system"),
     "C07": ("exploration", "runtime monitor: configuration / independent cpio decoder vs files() iteration, incl. forced large-file mode",
-            "Built packages over a size ladder, all compressors and levels, standard and stripped cpio (hook), and hand-encoded foreign archives are iterated with files(); every yielded (metadata, content) pair is compared with the configuration or an independent decoding.",
+            "Built packages over a size ladder, all compressors and levels, standard and stripped cpio (hook), and hand-encoded foreign archives are iterated with files(); every yielded (metadata, content) pair is compared with the configuration or an independent decoding; builds of the library with other cargo feature sets must read back what they build.",
             "large-file mode is forced through the verif-hooks feature; independent decompression uses the codec crates directly"),
     "C08": ("exploration", "runtime monitor: recomputed digests after independent decompression",
             "Header SHA-256, payload digest, alternate (uncompressed) payload digest and file digests of every built/signed/cleared package are recomputed from the written bytes.",
@@ -50,13 +50,13 @@ CHECKS = {
             "A scripted sink fails at every offset 0..=len, accepts partial buffers and injects Interrupted/zero-length writes; a scripted source chunks and truncates reads at every offset. Output must be the canonical bytes or a prefix; parse results must not depend on chunking. Complete over failure offsets for each package used.",
             "canonical bytes = write into a Vec; both release and verifdbg profiles"),
     "C15": ("exploration", "runtime monitor: tuple-as-model round trip (bounded-exhaustive + random) and panic hook",
-            "All component tuples over a small alphabet (names with '-' and '.', empty epoch) and random longer ones are formatted and parsed back; all compression types; no-panic on enumerated and random text.",
+            "All component tuples over a small alphabet (names with '-' and '.', empty epoch) and random longer ones are formatted and parsed back; all compression types (also in builds of the library with three other cargo feature sets); no-panic on enumerated and random text.",
             "real-package component constraints listed in the evidence"),
     "C16": ("exploration", "runtime monitor: independent byte walk vs reported segment offsets",
             "For assets, built/signed/cleared packages and hand-encoded headers with all store sizes mod 8, the reported offsets are compared with boundaries found by walking the written bytes.",
             "independent decoder"),
     "C17": ("exploration", "panic hook + destination model over bounded-exhaustive destination strings, capability strings and compression levels",
-            "All destinations over {/,.,..,a,bc} up to 7 tokens, capability strings, every compression type with levels across and beyond its range, metadata setters with odd strings: build must return Ok/Err, never panic; destinations without a file name must be errors. Both profiles.",
+            "All destinations over {/,.,..,a,bc} up to 7 tokens, capability strings, every compression type with levels across and beyond its range, metadata setters with odd strings: build must return Ok/Err, never panic; destinations without a file name must be errors; pairs of destinations; every compression type in builds with other cargo feature sets. Both profiles.",
             "destination model independent of std::path"),
     "C18": ("exploration", "complete enumeration with bit-arithmetic oracle",
             "All 65 536 mode words, all 2^32 i32 values and all constructor arguments are converted and compared with direct bit arithmetic (exhaustive).",
@@ -115,6 +115,11 @@ def main():
             "path": "harness/",
             "serves_properties": built,
             "kind_free_text": "Rust harness driving the real library under generated/hostile workloads with monitors (reference models, recording trait implementations, panic/allocation/exit monitors in worker processes, fs jail differ); release + overflow-checking profiles; Miri/valgrind replays",
+        }, {
+            "name": "featprobe",
+            "path": "featprobe/",
+            "serves_properties": [k for k in ["C04", "C07", "C15", "C17"] if k in built],
+            "kind_free_text": "small probe binary built against the library with three other cargo feature sets (none, gzip only, default); prints observations that the rpmverif checks judge",
         }],
         "checks": checks,
         "not_applicable": na,
